@@ -257,6 +257,27 @@ func AddTwin(r *Rng, d *Dataset, w Window, lookback int64, hostile, handover boo
 	d.Series = append(d.Series, tw)
 }
 
+// AddHistogramTwins adds two classic histograms, h_bucket and g_bucket, with the same labels: their
+// buckets only differ in the metric name.
+func AddHistogramTwins(r *Rng, d *Dataset, w Window, lookback int64) {
+	base := GenSamples(r, w, lookback, false)
+	for _, name := range []string{"h_bucket", "g_bucket"} {
+		cum := 0.0
+		for _, le := range []string{"1", "5", "+Inf"} {
+			cum += float64(1 + r.Intn(5))
+			sm := make([]Sample, len(base))
+			for i, b := range base {
+				v := b.V
+				if v == v && !math.IsInf(v, 0) {
+					v = math.Abs(v) + cum*float64(i+1)
+				}
+				sm[i] = Sample{T: b.T, V: v}
+			}
+			d.Series = append(d.Series, Series{Labels: map[string]string{"__name__": name, "le": le, "a": "x"}, Samples: sm})
+		}
+	}
+}
+
 // GenDataset: 0..maxSeries series over m0, m1 (labels a,b,c possibly absent) and, when
 // withHist, a small classic histogram h_bucket.
 func GenDataset(r *Rng, w Window, lookback int64, maxSeries int, hostile, withHist bool) Dataset {
